@@ -319,6 +319,9 @@ func newStringDecoder() encoding2.DecodeCompiler[Value] {
 							return err
 						}
 						t := reflect.NewAt(typ.Elem(), target).Elem()
+						if t.IsNil() {
+							t.Set(reflect.MakeSlice(t.Type(), 0, len(decode)))
+						}
 						t.Set(reflect.AppendSlice(t, reflect.ValueOf(decode).Convert(t.Type())))
 						return nil
 					}
